@@ -2498,9 +2498,13 @@ class quantized_relu(base_quantizer.BaseQuantizer):  # pylint: disable=invalid-n
             self.use_stochastic_rounding,
         "relu_upper_bound":
             self.relu_upper_bound,
+        "is_quantized_clip":
+            self.is_quantized_clip,
         "qnoise_factor":
             self.qnoise_factor.numpy() if isinstance(
-                self.qnoise_factor, tf.Variable) else self.qnoise_factor
+                self.qnoise_factor, tf.Variable) else self.qnoise_factor,
+        "use_ste":
+            self.use_ste
     }
     return config
 
